@@ -654,7 +654,9 @@ def remove_filedir(
 
     # try to delete the directories.  This must be done while locking down the tree lock
     with tree_lock.down:
-        while str(dirname) != node.root:
+        # Compare paths, not strings: node.root may be spelled with a
+        # trailing or repeated slash, which pathlib normalises away
+        while dirname != pathlib.Path(node.root):
             try:
                 dirname.rmdir()
                 log.info(f"Removed directory {dirname} on {node.name}")
